@@ -828,7 +828,17 @@ func ruleR11g(c *Ctx, r *Report) {
 			def = v
 		}
 	}
-	widthP := fn.Params[1]
+	// the width: the one 32-bit parameter, wherever it stands
+	var widthP *ssa.Parameter
+	for _, p := range fn.Params[1:] {
+		if b, ok := p.Type().Underlying().(*types.Basic); ok && b.Kind() == types.Uint32 {
+			widthP = p
+		}
+	}
+	if widthP == nil {
+		r.Undec(key, c.Pos(fn.Pos()), "no uint32 width parameter")
+		return
+	}
 	bad := "no upper bound on the bucket width found"
 	eachInstr(fn, func(in ssa.Instruction) {
 		b, ok := in.(*ssa.BinOp)
